@@ -165,10 +165,10 @@ def handle (j : Json) : Json :=
   let fuel := (b.texts.length + 1) * (depthMax + 1)
   let res := load w fuel 0
   let topIds : List Obj := (docAll rootJ).filterMap (fun ch => findObj b.nodes rootCx rootSrc ch.toks ch.kind false)
-  let (outcome, refs, nback, foreign, nnil, nskip, nempty) := match res with
-    | .ok s => ("ok", reach b s 4000 topIds [] [], s.nback, s.foreign, s.nnil, s.nskip, s.nempty)
-    | .err fg => ("err", [], 0, fg, 0, 0, 0)
-    | .outOfFuel => ("outOfFuel", [], 0, false, 0, 0, 0)
+  let (outcome, refs, nback, foreign, tclash, nnil, nskip, nempty) := match res with
+    | .ok s => ("ok", reach b s 4000 topIds [] [], s.nback, s.foreign, s.tclash, s.nnil, s.nskip, s.nempty)
+    | .err fl => ("err", [], 0, fl.foreign, fl.tclash, 0, 0, 0)
+    | .outOfFuel => ("outOfFuel", [], 0, false, false, 0, 0, 0)
   -- specification
   let specRefs := specWalk fs rootData tabs 4000
     ((specDocChildren rootJ).map (fun c => ((if isData then none else some (storeKey root)), c.kind, c.j, c.toks.getLast?.getD ""))) (if isData then [] else [storeKey root]) []
@@ -183,9 +183,12 @@ def handle (j : Json) : Json :=
   let stepKey (r : StepR) : String := match r with
     | .node cx _ src ptr _ _ => s!"{repr cx}|{src}|{ptr}"
     | .fail => "fail" | .empty => "empty"
+  -- #29: the model's own flag — a callback fired for a reference whose one-step target differs from the visitor's
+  -- (`textsShared`: the static over-approximation, reported as a branch only)
   let keyed : List (CNode × String) := (refNodes.zip stepsAtHome).map (fun (n, r) => (n, stepKey r))
-  let textNotGlobal := keyed.any (fun (a, ka) => keyed.any (fun (c, kc) =>
+  let textsShared := keyed.any (fun (a, ka) => keyed.any (fun (c, kc) =>
     a.ref == c.ref && a.kind == c.kind && ka != kc))
+  let textNotGlobal := tclash
   -- a04fe6c: a callback that meets a value of another kind returns; when the load then succeeds the
   -- component of that callback may be left without value although its reference is of the wrong kind
   let kindClash := outcome == "ok" && nskip > 0
@@ -231,6 +234,7 @@ def handle (j : Json) : Json :=
     (if texts.any (fun t => !(t.contains '#')) then ["ref.wholefile"] else []) ++
     (if refNodes.any targetIsRef then ["chain"] else []) ++
     (if nback > 0 then ["backtrack"] else []) ++
+    (if textsShared then ["text.sharedByTwoTargets"] else []) ++
     (if nnil > 0 then ["unvisit.nil"] else []) ++
     (if nskip > 0 then ["callback.otherKind"] else []) ++
     (if nempty > 0 then ["empty.swallowed"] else []) ++
